@@ -48,6 +48,9 @@ def _returned_names(fi: FuncInfo) -> List[str]:
 
 
 def _split_at_loop(items: list) -> Tuple[list, Optional[tuple], list]:
+    # the path through the merge loop; exits in front of it are obligations of rules_exits.early_exit_obs
+    from .rules_exits import main_path
+    items = main_path(items)[0]
     for k, it in enumerate(items):
         if it[0] == 'while':
             return items[:k], it, items[k + 1:]
